@@ -163,9 +163,24 @@ func checkC19(cx *Ctx, r *Report) {
 	if np := w.Func("provider.NewProvider"); np != nil {
 		cx.checkErrPropagation(r, "R-ERR", "provider.NewProvider", np)
 		okFlag := false
-		for _, c := range callsIn(np) {
-			if calleeOf(c) == nil && !c.Common().IsInvoke() && isParamIdx(c.Common().Value, 1) {
-				okFlag = strings.HasSuffix(fx.path(c.Common().Args[0]), ".insecure")
+		// (the call may sit in a private piece of the constructor that is handed the factory)
+		for _, g := range w.sortedFuncs(w.scopeOf(np)) {
+			for _, c := range callsIn(g) {
+				if calleeOf(c) != nil || c.Common().IsInvoke() || len(c.Common().Args) != 1 {
+					continue
+				}
+				isFactory := false
+				if _, isP := c.Common().Value.(*ssa.Parameter); isP {
+					isFactory = true
+					for _, v := range fx.throughWrapperParams(c.Common().Value, 0) {
+						if !(v.Parent() == np && isParamIdx(v, 1)) {
+							isFactory = false
+						}
+					}
+				}
+				if isFactory {
+					okFlag = strings.HasSuffix(fx.path(c.Common().Args[0]), ".insecure") && strings.HasSuffix(fx.T(fx.path(c.Common().Args[0])), "<provider.Provider>.insecure")
+				}
 			}
 		}
 		r.Check(okFlag, "R-VFG", "NewProvider:insecure-flag", w.FnPos(np), "the issuer factory is called with the provider's insecure flag", "the issuer factory is not called with the provider's insecure flag")
@@ -404,7 +419,9 @@ func checkC19(cx *Ctx, r *Report) {
 }
 
 // checkDerivedIssuerGeneric: every value the per-request issuer closure returns is
-//     S(flag) + "://" + host + P(path)
+//
+//	S(flag) + "://" + host + P(path)
+//
 // where S is a function of one bool that returns "http" exactly when it is true and "https" otherwise, flag is the
 // insecure flag the factory closure was called with, host is the first forwarded host on a path that found one and the
 // request's Host on a path that found none, P is a function of one string that returns it unchanged when it is empty or
@@ -418,6 +435,17 @@ func (cx *Ctx) checkDerivedIssuerGeneric(r *Report) bool {
 		return false
 	}
 	fwd := `ext:httpforwarded.ParseParameter("host")#0[]`
+	// (what holds where the helper is called is not part of what the helper decides)
+	ownAtoms := func(as []Atom, f *ssa.Function) []Atom {
+		var out []Atom
+		for _, a := range as {
+			if a.Cond != nil && a.Cond.Parent() != nil && a.Cond.Parent() != f {
+				continue
+			}
+			out = append(out, a)
+		}
+		return out
+	}
 	isSchemeFn := func(f *ssa.Function) bool {
 		if f == nil || f.Blocks == nil || len(f.Params) != 1 || f.Signature.Results().Len() != 1 {
 			return false
@@ -429,6 +457,7 @@ func (cx *Ctx) checkDerivedIssuerGeneric(r *Report) bool {
 		seen := map[string]bool{}
 		for i := range aps {
 			p := &aps[i]
+			p.Atoms = ownAtoms(p.Atoms, f)
 			k, isK := constString(fx.retVal(p, 0))
 			if !isK || len(p.Atoms) != 1 || p.Atoms[0].Op != "TRUE" || stripNot(p.Atoms[0].Cond) != ssa.Value(f.Params[0]) {
 				return false
@@ -454,7 +483,7 @@ func (cx *Ctx) checkDerivedIssuerGeneric(r *Report) bool {
 			p := &aps[i]
 			rv := fx.retVal(p, 0)
 			empty, nonEmpty, hasPre, noPre := false, false, false, false
-			for _, a := range p.Atoms {
+			for _, a := range ownAtoms(p.Atoms, f) {
 				switch {
 				case a.Op == "EMPTY":
 					if a.Neg {
@@ -521,35 +550,53 @@ func (cx *Ctx) checkDerivedIssuerGeneric(r *Report) bool {
 			if !onlyLabel(sarg, "param:provider.issuerFromForwardedOrHost$1/#0") || !onlyLabel(parg, "param:provider.issuerFromForwardedOrHost/#0") {
 				return false
 			}
-			fromFwd, fromHost := false, false
-			for _, l := range vf.Labels(parts[2].Val).leaves() {
-				switch {
-				case l == fwd:
-					fromFwd = true
-				case strings.HasSuffix(l, "/#0.Host"):
-					fromHost = true
-				case l == "const:" || l == "const:zero":
-				default:
-					return false
-				}
+			// (the host may be chosen by a helper of its own - `c.requestHost(r)`: each of its returns is one alternative,
+			// under what holds at that return)
+			type hostAlt struct {
+				val   ssa.Value
+				atoms []Atom
+				tag   string
 			}
-			found, notFound := false, false
-			for _, a := range append(append([]Atom{}, alt.Atoms...), fx.AtomsAt(ret)...) {
-				if strings.Contains(a.A, "hostFromForwarded#1") || strings.Contains(a.String(), "hostFromForwarded") {
-					if a.Neg {
-						notFound = true
-					} else {
-						found = true
+			hosts := []hostAlt{{parts[2].Val, nil, ""}}
+			if hc, isC := parts[2].Val.(*ssa.Call); isC {
+				if g := calleeOf(hc); g != nil && g.Blocks != nil && g.Pkg != nil && isModulePath(g.Pkg.Pkg.Path()) && g.Signature.Results().Len() == 1 && len(returnsOf(g)) >= 2 {
+					hosts = nil
+					for i, gr := range returnsOf(g) {
+						hosts = append(hosts, hostAlt{gr.Results[0], fx.AtomsAt(gr), fmt.Sprintf("/h%d", i)})
 					}
 				}
 			}
-			if fromFwd && !found || fromHost && !fromFwd && !notFound || fromFwd && fromHost {
-				return false
+			for _, ha := range hosts {
+				fromFwd, fromHost := false, false
+				for _, l := range vf.Labels(ha.val).leaves() {
+					switch {
+					case l == fwd:
+						fromFwd = true
+					case strings.HasSuffix(l, "/#0.Host"):
+						fromHost = true
+					case l == "const:" || l == "const:zero":
+					default:
+						return false
+					}
+				}
+				found, notFound := false, false
+				for _, a := range append(append(append([]Atom{}, alt.Atoms...), fx.AtomsAt(ret)...), ha.atoms...) {
+					if strings.Contains(a.A, "hostFromForwarded#1") || strings.Contains(a.String(), "hostFromForwarded") {
+						if a.Neg {
+							notFound = true
+						} else {
+							found = true
+						}
+					}
+				}
+				if fromFwd && !found || fromHost && !fromFwd && !notFound || fromFwd && fromHost {
+					return false
+				}
+				sawFwd = sawFwd || fromFwd
+				sawHost = sawHost || fromHost
+				nAlt++
+				oks = append(oks, verdict{"derived-issuer:composition@" + w.InstrPos(ret) + alt.Tag + ha.tag, w.InstrPos(ret)})
 			}
-			sawFwd = sawFwd || fromFwd
-			sawHost = sawHost || fromHost
-			nAlt++
-			oks = append(oks, verdict{"derived-issuer:composition@" + w.InstrPos(ret) + alt.Tag, w.InstrPos(ret)})
 		}
 	}
 	if nAlt < 2 || !sawFwd || !sawHost {
